@@ -6,6 +6,7 @@ import Gv.Model.Fmt.Stockholm
 import Gv.Model.Fmt.Clustal
 import Gv.Model.Fmt.Partition
 import Gv.Model.Fmt.Nexus
+import Gv.Model.Fmt.Auto
 import Gv.Gen.FmtFacts
 /-!
 Oracle handlers for the alignment formats (C02 round trips, C03 parser outcomes).
@@ -220,10 +221,10 @@ def expectAln (rows : XRows) : String :=
 
 /-- `utils.ParseAlignmentAuto`: dispatch on the first byte; default parser options -/
 def modelAuto (strict : Bool) (bs : List Byte) : Option String :=
-  match bs with
-  | [] => some "err"          -- ReadByte fails
-  | c :: _ =>
-    let fmt := if c == 62 then "fasta" else if c == 35 then "nexus" else if c == 67 then "clustal" else "phylip"
+  match Auto.detect bs with
+  | none => some "err"          -- ReadByte fails
+  | some f =>
+    let fmt := f.name
     match modelParse fmt { strict := strict } bs with
     | none => none
     | some (.ok (some a)) => some s!"fmt={fmt} ok {encAln a}"
